@@ -251,7 +251,8 @@ Fixpoint load_q (ppath : list str) (ptmpl : N) (c : qconf) : option tree :=
 
 (* set-up operations applied to the loaded hierarchy before any application arrives:
    Queue.MarkQueueForRemoval (managed queue and its managed descendants go to Draining) and the
-   Stop event of the queue state machine (hook; Active/Stopped -> Stopped, refused when Draining) *)
+   Stop event of the queue state machine (hook; Active/Stopped -> Stopped, refused when Draining; the
+   Remove event is refused when Stopped) *)
 Inductive setop := SDrain (p : str) | SStop (p : str).
 
 Fixpoint is_prefix (p l : list str) : bool :=
@@ -267,6 +268,7 @@ Definition set_state (q : queue) (s : qstate) : queue :=
 Definition apply_setop (t : tree) (o : setop) : tree :=
   match o with
   | SDrain p => map (fun q => if is_prefix (name_parts p) (q_path q) && q_managed q
+                                 && negb (qstate_eqb (q_state q) QStopped)
                               then set_state q QDraining else q) t
   | SStop p => map (fun q => if path_eqb (name_parts p) (q_path q) && negb (qstate_eqb (q_state q) QDraining)
                              then set_state q QStopped else q) t
